@@ -115,15 +115,15 @@ func (prog *Prog) Load(src io.Reader) (err error) {
 	var n int
 	var m uint64
 
-	n, _ = r.Read(b[:2])
-	if n != 2 {
+	_, err = io.ReadFull(r, b[:2])
+	if err != nil {
 		return fmt.Errorf("missing magic header")
 	}
 	if string(b[:2]) != bytecodeMagic {
 		return fmt.Errorf("invalid magic header")
 	}
-	n, _ = r.Read(b[:2])
-	if n != 2 {
+	_, err = io.ReadFull(r, b[:2])
+	if err != nil {
 		return fmt.Errorf("missing bcode major/minor version")
 	}
 	if b[0] != bytecodeMajor {
@@ -137,12 +137,12 @@ func (prog *Prog) Load(src io.Reader) (err error) {
 	if err != nil {
 		return fmt.Errorf("name size: %w", err)
 	}
-	p, err := r.Peek(int(m))
+	name := make([]byte, m)
+	_, err = io.ReadFull(r, name)
 	if err != nil {
-		return fmt.Errorf("name too short: %w", err)
+		return fmt.Errorf("name too short: %w", noEOF(err))
 	}
-	r.Discard(int(m))
-	prog.name = string(p)
+	prog.name = string(name)
 
 	m, err = uvarintFromBuf(r)
 	if err != nil {
